@@ -4,10 +4,12 @@
      "enum <cp,cp,...> <len> <first-index or -1>"       all strings of that length over the alphabet of
                                                         code points (hex), optionally only those starting
                                                         with alphabet[first-index]
+     "rep <prefix-hex|-> <unit-hex> <count> <suffix-hex|->"  the string prefix ++ unit * count ++ suffix (long strings);
+                                                        the first field of the answer is rep/<prefix>/<unit>/<count>/<suffix>
      "scan <lo> <hi> <prefix-hex|-> <suffix-hex|->"     prefix ++ [c] ++ suffix for every Unicode scalar
                                                         value lo <= c < hi (decimal; surrogates skipped)
    stdout: one line per string
-     "<hex> P:<v> I:<v> E:<v> B:<v> M:<v> O:<v> W:<6 letters> Y:<6 letters> T:<6 letters> R:<2 letters> H:<6 letters>[ WD:<pos>=<8 letters>,..][ HD:<pos>=<8 letters>,..]"
+     "<hex> P:<v> I:<v> E:<v> B:<v> M:<v> O:<v> W:<6 letters> Y:<6 letters> T:<6 letters> R:<2 letters> N:<15 letters> H:<6 letters>[ WD:<pos>=<8 letters>,..][ HD:<pos>=<8 letters>,..]"
    v = ok|err|panic (validate_object_path, _interface, _errorname, _busname, _membername, ObjectPath::new;
    O:bad = Ok with a different string); W = header marshalling with the string as path, interface,
    member, error name, destination, sender (o = Ok and exactly the given names written, e = Err,
@@ -19,7 +21,9 @@
    body bytes as ObjectPath<&str> and ObjectPath<String> (impl Unmarshal), each followed by the typed
    Marshal impl of the wrapper (e = constructor Err, o = Ok/same string/marshalled as that string, n = Ok but
    marshal refuses, x = other). R = body bytes holding the string with signature "o" decoded with get_param and
-   checked with MarshalledMessageBody::validate; H = a hand-encoded header carrying the string in each name
+   checked with MarshalledMessageBody::validate; N = body bytes holding the string as an object path nested in a
+   container (second array element "ao", struct field "(yo)", dict key "a{oy}", dict value "a{yo}", variant content),
+   per route the three letters of validate(), get_param() and the typed get::<..>(); H = a hand-encoded header carrying the string in each name
    position decoded with unmarshal_header + unmarshal_dynamic_header (same 8 configurations, HD like WD).
    enum/scan print only lines where something is not err/e, then "total <n> nontrivial <k>". *)
 open Gen_model
@@ -101,9 +105,9 @@ let is_name_char c =
 let is_sep c = c = 47 || c = 46 || c = 58
 
 (* returns (interesting, nontrivial, line) for a list of scalar values *)
-let eval (cps : int list) : bool * bool * string =
+let eval ?label (cps : int list) : bool * bool * string =
   let s = List.map n_of_int cps in
-  let bytes = List.map int_of_n (utf8_bytes s) in
+  let first = match label with Some l -> l | None -> hex_of_ints (List.map int_of_n (utf8_bytes s)) in
   let p = status (validate_object_path s) and i = status (validate_interface s)
   and e = status (validate_errorname s) and b = status (validate_busname s)
   and m = status (validate_membername s) in
@@ -124,15 +128,23 @@ let eval (cps : int list) : bool * bool * string =
   let r = String.init 2 (fun k -> match k with
     | 0 -> (match unmarshal_param_objectpath (Ok s) with Ok x -> if x = s then 'o' else 'x' | Err -> 'e' | _ -> 'p')
     | _ -> (match validate_raw_objectpath (Ok s) with Ok _ -> 'o' | Err -> 'e' | _ -> 'p')) in
+  (* an object path nested in a container (array element, struct field, dict key, dict value, variant content): every
+     container decoder hands the position to the decoder of the base type o - validate_raw.rs validate_marshalled_base
+     (the Dict arm calls it directly with *key_sig), unmarshal/param unmarshal_base, impl Unmarshal for ObjectPath<S> -
+     so per route the three letters are those of validate(), get_param() and the typed get::<..>() on the bare string *)
+  let r3 = [| r.[1];
+              (match unmarshal_param_objectpath (Ok s) with Ok x -> if x = s then 'o' else 'x' | Err -> 'e' | _ -> 'p');
+              (match objectpath_unmarshal (Ok s) with Ok x -> if x = s then 'o' else 'x' | Err -> 'e' | _ -> 'p') |] in
+  let nn = String.init 15 (fun k -> r3.(k mod 3)) in
   let codes = [| 1; 2; 3; 4; 6; 7 |] in
   let hl = String.init 6 (fun k -> match name_field_decoder (n_of_int codes.(k)) with
     | Some f -> (match f (Ok s) with Ok x -> if x = s then 'o' else 'x' | Err -> 'e' | _ -> 'p')
     | None -> '?') in
   let interesting = List.exists (fun v -> v <> "err") [p; i; e; b; m; o] || w <> "eeeeee" || y <> "eeeeee" || t <> "eeeeee"
-                    || r <> "ee" || hl <> "eeeeee" in
+                    || r <> "ee" || nn <> "eeeeeeeeeeeeeee" || hl <> "eeeeee" in
   let nontrivial = interesting || (List.exists is_sep cps && List.exists is_name_char cps) in
   (interesting, nontrivial,
-   Printf.sprintf "%s P:%s I:%s E:%s B:%s M:%s O:%s W:%s Y:%s T:%s R:%s H:%s%s" (hex_of_ints bytes) p i e b m o w y t r hl
+   Printf.sprintf "%s P:%s I:%s E:%s B:%s M:%s O:%s W:%s Y:%s T:%s R:%s N:%s H:%s%s" first p i e b m o w y t r nn hl
      (if wd = [] then "" else " WD:" ^ String.concat "," wd))
 
 let () =
@@ -151,6 +163,14 @@ let () =
                let (_, _, l) = eval cps in
                (* the extracted specification encoder must reproduce the input bytes *)
                if List.map int_of_n (utf8_bytes (List.map n_of_int cps)) <> bytes then emit (h ^ " ?ENC") else emit l)
+      | ["rep"; pfx; unit; count; sfx] ->
+          let label = Printf.sprintf "rep/%s/%s/%s/%s" pfx unit count sfx in
+          (match decode_utf8 (ints_of_hex pfx), decode_utf8 (ints_of_hex unit), decode_utf8 (ints_of_hex sfx) with
+           | Some a, Some u, Some z ->
+               let rec go k acc = if k = 0 then acc else go (k - 1) (List.rev_append u acc) in
+               let cps = List.rev_append (List.rev a) (List.rev (List.rev_append z (go (int_of_string count) []))) in
+               let (_, _, l) = eval ~label cps in emit l
+           | _ -> emit (label ^ " NOTUTF8"))
       | ["enum"; al; len; first] ->
           let alpha = Array.of_list (List.map (fun x -> int_of_string ("0x" ^ x)) (String.split_on_char ',' al)) in
           let k = Array.length alpha in
